@@ -294,6 +294,32 @@ func staticLenIs(e *Expr, want string, depth int) bool {
 		if e.Fn != nil && e.Fn.Name() == "FillBytes" && len(e.Args) == 2 {
 			return staticLenIs(e.Args[1], want, depth+1)
 		}
+		// an unexported same-package helper that builds the buffer: every value it
+		// returns has the length of one of its parameters, and the argument passed
+		// for that parameter is `want`
+		if cl, ok := e.V.(*ssa.Call); ok {
+			if h := localHelper(cl.Parent(), &cl.Call); h != nil {
+				for i, prm := range h.Params {
+					if i >= len(e.Args) || e.Args[i].String() != want {
+						continue
+					}
+					all, n := true, 0
+					for _, b := range h.Blocks {
+						for _, in := range b.Instrs {
+							if r, ok := in.(*ssa.Return); ok && len(r.Results) >= 1 {
+								n++
+								if !staticLenIs(Desc(r.Results[0]), prm.Name(), depth+1) {
+									all = false
+								}
+							}
+						}
+					}
+					if all && n > 0 {
+						return true
+					}
+				}
+			}
+		}
 	case EPhi, EAlloc:
 		if len(e.Args) == 0 {
 			return false
